@@ -80,15 +80,28 @@ theorem delivered_keys (out : List Out) (c : ConnId) :
     rw [e1, e2, List.filterMap_append, List.filterMap_append, ih]
     congr 1
     by_cases hs : o.strict = true <;> by_cases hc : o.to = c <;> simp [hs, hc]
-    simpa [Out.strict] using hs
+    have := (by simpa [Out.strict] using hs : strictKey o.msg = none ∧ tagOf o.msg = none); exact this.1
 
 theorem delivered_keys_nil {out : List Out} (h : sf out = []) (c : ConnId) : (delivered out c).filterMap strictKey = [] := by
   rw [delivered_keys, h]; rfl
 
-theorem delivered_keys_one {out : List Out} {o : Out} {key : Key} (h : sf out = [o]) (hk : strictKey o.msg = some key) (c : ConnId) :
+theorem delivered_nonstrict (t : List Out) (c : ConnId) (h : ∀ x ∈ t, strictKey x.msg = none) :
+    (delivered t c).filterMap strictKey = [] := by
+  induction t with
+  | nil => rfl
+  | cons x t ih =>
+    have hx := h x (by simp)
+    have := ih (fun y hy => h y (by simp [hy]))
+    by_cases hc : x.to = c <;> simp_all [delivered, List.filter_cons]
+
+theorem delivered_keys_one {out : List Out} {o : Out} {t : List Out} {key : Key} (h : sf out = o :: t) (hk : strictKey o.msg = some key)
+    (ht : ∀ x ∈ t, strictKey x.msg = none) (c : ConnId) :
     (delivered out c).filterMap strictKey = if o.to = c then [key] else [] := by
   rw [delivered_keys, h]
-  by_cases hc : o.to = c <;> simp [delivered, hc, hk]
+  have e : delivered (o :: t) c = (if o.to = c then [o.msg] else []) ++ delivered t c := by
+    by_cases hc : o.to = c <;> simp [delivered, List.filter_cons, hc]
+  rw [e, List.filterMap_append, delivered_nonstrict t c ht]
+  by_cases hc : o.to = c <;> simp [hc, hk]
 
 /-! ### each event keeps the invariant -/
 
@@ -175,24 +188,24 @@ theorem LinkInv_deliver_nil {l : Link} {out : List Out} (c : ConnId) (hs : sf ou
 
 theorem LinkInv_deliver_other {l : Link} {out : List Out} {c x : ConnId} {key : Option Key} (ho : OneReply c key out)
     (hx : x ≠ c) (h : LinkInv l) : LinkInv { l with down := l.down ++ delivered out x } := by
-  rcases ho with hs | ⟨o, hs, hto, hk, hsome⟩
+  rcases ho with hs | ⟨o, t, hs, hto, hk, hsome, ht⟩
   · exact LinkInv_deliver_nil x hs h
   · refine LinkInv_of_le (l := l) rfl ?_ h
     intro key'
     obtain ⟨kk, hkk⟩ := Option.isSome_iff_exists.mp hsome
     have hne : ¬ o.to = x := by rw [hto]; exact fun e => hx e.symm
-    simp [cnt, keysUp, keysDown, List.filterMap_append, delivered_keys_one hs (hkk ▸ hk), hne]
+    simp [cnt, keysUp, keysDown, List.filterMap_append, delivered_keys_one hs (hkk ▸ hk) (fun y hy => (ht y hy).2), hne]
 
 theorem LinkInv_handle {l : Link} {out : List Out} {c : ConnId} {r : Req} {rest : List Req} (hu : l.up = r :: rest)
     (ho : OneReply c (reqKeyS r) out) (h : LinkInv l) :
     LinkInv { l with up := rest, down := l.down ++ delivered out c } := by
   refine LinkInv_of_le (l := l) rfl ?_ h
   intro key
-  rcases ho with hs | ⟨o, hs, hto, hk, hsome⟩
+  rcases ho with hs | ⟨o, t, hs, hto, hk, hsome, ht⟩
   · simp only [cnt, keysUp, keysDown, List.filterMap_append, delivered_keys_nil hs, hu, List.filterMap_cons]
     cases reqKeyS r <;> simp [List.count_cons] <;> omega
   · obtain ⟨kk, hkk⟩ := Option.isSome_iff_exists.mp hsome
-    simp only [cnt, keysUp, keysDown, List.filterMap_append, delivered_keys_one hs (hkk ▸ hk), hto, hu,
+    simp only [cnt, keysUp, keysDown, List.filterMap_append, delivered_keys_one hs (hkk ▸ hk) (fun y hy => (ht y hy).2), hto, hu,
       List.filterMap_cons, hkk, ↓reduceIte, List.count_append, List.count_cons, List.count_nil]
     omega
 
@@ -202,12 +215,18 @@ theorem sysStep_inv {s s' : Sys} {e : SysEv} (hs : sysStep s e = some s') (h : S
     simp only [sysStep] at hs
     split at hs
     · simp at hs
-    · simp only [Option.some.injEq] at hs; subst hs
-      intro x l hl
-      simp only [setLink] at hl
-      split at hl
-      · simp only [Option.some.injEq] at hl; subst hl; exact LinkInv_init v
-      · exact h x l hl
+    · split at hs
+      · simp at hs
+      · rename_i b w out hst
+        simp only [Option.some.injEq] at hs; subst hs
+        have ho := step_other_no_reply (by intro id m he; simp at he) hst
+        intro x l hl
+        simp only [setLink] at hl
+        split at hl
+        · simp only [Option.some.injEq] at hl; subst hl; exact LinkInv_init v
+        · simp only [deliver, Option.map_eq_some_iff] at hl
+          obtain ⟨lx, hlx, rfl⟩ := hl
+          exact LinkInv_deliver_nil x ho (h x lx hlx)
   | clientSends c r =>
     simp only [sysStep] at hs
     split at hs
